@@ -46,6 +46,7 @@ def fresh(name, sort=I):
 
 
 _SAME = object()
+_REAL_UF = ("arctan", "tanh", "sin", "cos", "exp", "log1p", "expm1", "sinh", "cosh", "arcsinh")
 
 
 @dataclass
@@ -77,6 +78,11 @@ class SView:
 class SOpt:
     """An optional object (None or something): `x is None` <=> not present."""
     present: z3.BoolRef
+
+
+@dataclass
+class SVec:
+    """result of element-wise arithmetic on whole arrays: contents unknown (only reductions of it are used)"""
 
 
 @dataclass
@@ -369,8 +375,13 @@ class Engine:
         return q, r
 
     def ev_BinOp(self, e, st, spec, ctx):
-        a = to_num(self.ev(e.left, st, spec, ctx))
-        b = to_num(self.ev(e.right, st, spec, ctx))
+        a0 = self.ev(e.left, st, spec, ctx)
+        b0 = self.ev(e.right, st, spec, ctx)
+        if isinstance(a0, (SArr, SSlice, SView, SVec)) or isinstance(b0, (SArr, SSlice, SView, SVec)):
+            # element-wise arithmetic on whole arrays / slices (numba checks the shapes): an unknown vector
+            return SVec()
+        a = to_num(a0)
+        b = to_num(b0)
         op = type(e.op)
         isint = a.sort() == I and b.sort() == I
         if op is ast.Add:
@@ -693,9 +704,30 @@ class Engine:
             if isinstance(recv, ast.Name) and recv.id in ("np", "numpy") and f.attr in ("empty", "zeros", "ones") \
                     and not spec and e.args:
                 return self.np_alloc(f.attr, e, st, ctx)
+            if isinstance(recv, ast.Name) and recv.id in ("np", "numpy", "math") and f.attr in _REAL_UF \
+                    and len(e.args) == 1 and not e.keywords:
+                v = self.ev(e.args[0], st, spec, ctx)
+                if is_num(v):       # a total real function of one real argument: uninterpreted (only "some finite value")
+                    v = z3.ToReal(v) if v.sort() == I else v
+                    return z3.Function("uf_" + f.attr, R, R)(v)
+            if isinstance(recv, ast.Name) and recv.id in ("np", "numpy", "math") and f.attr == "nextafter" \
+                    and len(e.args) == 2 and not spec:
+                x = to_num(self.ev(e.args[0], st, spec, ctx))
+                x = z3.ToReal(x) if x.sort() == I else x
+                d = e.args[1]
+                up = isinstance(d, ast.Name) and d.id == "inf"
+                down = isinstance(d, ast.UnaryOp) and isinstance(d.op, ast.USub) and isinstance(d.operand, ast.Name) \
+                    and d.operand.id == "inf"
+                if up or down:      # the neighbouring float in that direction: never on the other side of x
+                    r = fresh("nextafter", R)
+                    self.fact(r >= x if up else r <= x, st.guard)
+                    return r
+                raise OutOfSubset("nextafter towards a finite value")
             if isinstance(recv, ast.Name) and recv.id in ("np", "numpy", "math"):
                 raise OutOfSubset(f"call {ast.unparse(f)}")
             obj = self.ev(recv, st, spec, ctx)
+            if isinstance(obj, SVec) and f.attr == "sum" and not e.args:
+                return fresh("vecsum", R)
             if isinstance(obj, SArr) and f.attr == "copy" and not e.args and not e.keywords:
                 return obj          # arrays are values here: a copy is the same value (and a distinct object)
             if isinstance(obj, SArr) and f.attr == "fill" and not spec and isinstance(recv, ast.Name):
